@@ -63,6 +63,33 @@ def py_field_name(name):
     return ('ok', {'head': head, 'parts': parts})
 
 
+INDEX_BORDERS = [0, 1, 9, 10, 2 ** 31 - 1, 2 ** 31, 2 ** 31 + 1, 2 ** 32 - 1, 2 ** 32, 2 ** 63 - 1, 2 ** 63, 2 ** 64 - 1, 2 ** 64, 10 ** 18, 10 ** 19]
+
+
+def gen_index_text(cs):
+    """digit text of a head / subscript: any size up to beyond 64 bits, leading zeros, a sign or blank now and then"""
+    v = cs.pick(INDEX_BORDERS) + cs.pick([0, 0, 1, -1]) if cs.bool() else cs.choice(10 ** cs.pick([1, 3, 9, 10, 12, 19]))
+    t = str(max(v, 0))
+    if cs.bool(30):
+        t = '0' * (1 + cs.choice(3)) + t
+    if cs.bool(20):
+        t = cs.pick(['+', '-', ' ', '_']) + t
+    if cs.bool(12):
+        t += cs.pick([' ', '_', 'a', '.0'])
+    return t
+
+
+def gen_key_text(cs):
+    """key / attribute text: any characters but the separators, white space of every kind at the edges included"""
+    t = vg.gen_text(cs, 4, ['abcXYZ_', '019', 'é中\U0001f600', ' \t\u3000\xa0\u2003', '-+*/%', '١٢'])
+    t = ''.join(c for c in t if c not in '.[]{}!:')
+    if cs.bool(50):
+        t = cs.pick([' ', '\t', '\u3000', '\xa0']) + t
+    if cs.bool(50):
+        t += cs.pick([' ', '\t', '\u3000', '\xa0'])
+    return t
+
+
 def gen_field(cs, depth=0):
     name = ''
     k = cs.choice(5)
@@ -130,12 +157,16 @@ class C20(Property):
                 name = cs.pick(['a', 'abc', 'é', '_x', 'a b'])
             elif k == 3:
                 name = cs.pick(['+1', '-1', '007', '١', '99999999999999999999', '1a', ' 1', '1 ', '0x1', '1_0'])
+            elif k == 4:
+                name = gen_index_text(cs)
+            elif k == 5:
+                name = gen_key_text(cs)
             for _ in range(cs.small(4)):
                 j = cs.choice(6)
                 if j < 2:
-                    name += '.' + cs.pick(['a', 'bc', '', 'é', '1', 'a]'])
+                    name += '.' + (cs.pick(['a', 'bc', '', 'é', '1', 'a]']) if cs.bool(170) else gen_key_text(cs))
                 elif j < 4:
-                    name += '[' + cs.pick(['0', '12', 'k', 'a.b', '', '+1', '007', '[', 'é', ' ']) + ']'
+                    name += '[' + (cs.pick(['0', '12', 'k', 'a.b', '', '+1', '007', '[', 'é', ' ']) if cs.bool(150) else (gen_index_text(cs) if cs.bool() else gen_key_text(cs))) + ']'
                 else:
                     name += cs.pick(['[', ']', '.', 'x', '..', '[]'])
             case = {'k': 'name', 't': name}
@@ -226,7 +257,7 @@ class C20(Property):
         t = case['t']
         sig = f.signature if f else ''
         if case['k'] == 'name':
-            if re.search(r'[0-9]{20,}', t) and sig in ('', 'name_accepts_invalid'):
+            if any(int(m) > 2 ** 63 - 1 for m in re.findall(r'[0-9]+', t)) and sig in ('', 'name_accepts_invalid'):
                 return 'C20-F4'
             if any(c.isdecimal() and not c.isascii() for c in t) and sig in ('', 'name_parts_differ'):
                 return 'C20-F5'
